@@ -57,6 +57,9 @@ def check_binarize(ctx, A, parents, refinements, where="E2"):
     after, _ = describe(root, leaf_ids)
     if after != orig or proj.tree_to_parents(root)[0] != tuple(parents):
         ctx.violation(f"binarize modified its argument {list(parents)}", case)
+    bad = proj.malformed(res)
+    if bad:
+        ctx.violation(f"binarize({list(parents)}) does not return proper trees: {bad}", dict(case, observed=bad))
     got = []
     for tree in res:
         desc, binary = describe(tree, leaf_ids)
@@ -99,7 +102,12 @@ def check_input_binarize(ctx, A, rng, ot, st, where="E2"):
     oleaf = {built.onodes[u - 1].name: u for u in proj.leaves_of(ot)}
     sleaf = {built.snodes[u - 1].name: u for u in proj.leaves_of(st)}
     seen = []
+    bad = proj.malformed([out.object_tree for out in outs]) or proj.malformed([out.species_lca.tree for out in outs][:1])
+    if bad:
+        ctx.violation(f"input.binarize() does not yield proper trees on {case}: {bad}", dict(case, observed=bad))
     for out in outs:
+        if set(out.leaf_object_species) != set(out.object_tree.get_leaves()):
+            ctx.violation(f"input.binarize() on {case}: the leaf assignment is not keyed by the leaves of the refined tree", case)
         od, ob = describe(out.object_tree, oleaf)
         sd, sb = describe(out.species_lca.tree, sleaf)
         seen.append((frozenset(od), frozenset(sd)))
